@@ -9,6 +9,8 @@
 //   m=<address through indexing with the pos-th valid index, independent of iterators>
 #include "common/viewprog.hpp"
 
+#include <new>
+
 using dv::V;
 
 struct Step { int r; std::string op; long arg; bool hask; long k; };
@@ -30,7 +32,7 @@ struct Walker : dv::Typed<int, Walker> {
 	int* root = nullptr;
 
 	template<class It, class CIt, class Deref, class Indexed>
-	void walk(It b, It e, idx_t size, Deref deref, Indexed indexed) {
+	void walk(It b, It e, idx_t size, Deref deref, Indexed indexed, It foreign) {
 		std::array<It, 3> regs{b, b, b};
 		int n = 0;
 		for(auto const& s : steps) {
@@ -43,6 +45,12 @@ struct Walker : dv::Typed<int, Walker> {
 			else if(s.op == "plus") { it = it + s.arg; }
 			else if(s.op == "minus") { it = it - s.arg; }
 			else if(s.op == "set") { it = regs[static_cast<std::size_t>(s.arg)]; }
+			else if(s.op == "fset") {  // the register is RE-CONSTRUCTED as an iterator of another view, then assigned a home position
+				It src(regs[static_cast<std::size_t>(s.arg)]);
+				it.~It();
+				new(&it) It(foreign);
+				it = src;
+			}  // via an iterator of another view
 			else if(s.op == "cpy") { It c(regs[static_cast<std::size_t>(s.arg)]); it = c; }
 			else if(s.op == "end") { it = e; }
 			else if(s.op == "begin") { it = b; }
@@ -64,9 +72,11 @@ struct Walker : dv::Typed<int, Walker> {
 			idx_t const size = w.size();
 			std::cout << "F " << id << " k=a size=" << size << " dist=" << (w.end() - w.begin()) << '\n';
 			if constexpr(D == 1) {
-				walk<It, CIt>(w.begin(), w.end(), size, [](It const& it) { return &*it; }, [](It const& it, idx_t k) { return &it[k]; });
+				auto f = w.dropped(size > 0 ? 1 : 0);
+				walk<It, CIt>(w.begin(), w.end(), size, [](It const& it) { return &*it; }, [](It const& it, idx_t k) { return &it[k]; }, f.begin());
 			} else {
-				walk<It, CIt>(w.begin(), w.end(), size, [](It const& it) { return (*it).base(); }, [](It const& it, idx_t k) { return it[k].base(); });
+				auto f = w.rotated();  // same type, other extents
+				walk<It, CIt>(w.begin(), w.end(), size, [](It const& it) { return (*it).base(); }, [](It const& it, idx_t k) { return it[k].base(); }, f.begin());
 			}
 			// independent of iterators: the sub-view / element at the p-th valid index
 			auto const ext = w.extension();
@@ -84,7 +94,18 @@ struct Walker : dv::Typed<int, Walker> {
 			std::cout << "F " << id << " k=e size=" << size << " dist=" << (el.end() - el.begin());
 			if(size > 0) { std::cout << " front=" << (&el.front() - root) << " back=" << (&el.back() - root); }
 			std::cout << '\n';
-			walk<It, CIt>(el.begin(), el.end(), size, [](It const& it) { return &*it; }, [](It const& it, idx_t k) { return &it[k]; });
+			// an iterator into a view of the same type with other extents (rotated; for D = 1 a shorter slice)
+			if constexpr(D == 1) {
+				auto f = w.dropped(w.size() > 0 ? 1 : 0);
+				auto&& fel = f.elements();
+				walk<It, CIt>(el.begin(), el.end(), size, [](It const& it) { return &*it; }, [](It const& it, idx_t k) { return &it[k]; }, fel.begin());
+			} else {
+				auto f = w.rotated();
+				auto&& fel = f.elements();
+				It fi = fel.begin();
+				if(fel.size() > 1) { ++fi; }
+				walk<It, CIt>(el.begin(), el.end(), size, [](It const& it) { return &*it; }, [](It const& it, idx_t k) { return &it[k]; }, fi);
+			}
 			std::cout << "M " << id << " k=e";
 			for(idx_t p = 0; p != size && p < 64; ++p) { std::cout << ' ' << (&el[p] - root); }
 			std::cout << '\n';
@@ -143,7 +164,7 @@ int main() {
 				Step s{};
 				std::string ks;
 				is >> s.r >> s.op;
-				if(s.op == "add" || s.op == "sub" || s.op == "set" || s.op == "cpy" || s.op == "plus" || s.op == "minus") { is >> s.arg; }
+				if(s.op == "add" || s.op == "sub" || s.op == "set" || s.op == "fset" || s.op == "cpy" || s.op == "plus" || s.op == "minus") { is >> s.arg; }
 				if(is >> ks && ks != "-") { s.hask = true; s.k = std::stol(ks); }
 				wk.steps.push_back(s);
 			} else if(kw == "end") {
